@@ -27,6 +27,15 @@
                   symbolic-size allocation) look reachable to the symbolic execution: no verdict */
 #define H_MTYPE MIR_T_U16
 #endif
+/* Base and index registers of memory operands are ABSENT in the checked obligations: mir.c prints them through
+   `(op.mode == MIR_OP_MEM ? output_reg : output_var) (ctx, f, func, reg)`, and cbmc 6.11's function-pointer removal
+   resolves that call to [default_mem_protect, default_realloc] (spurious "dereferenced function pointer must be one
+   of" failure, the real callee is never entered).  -DH_MEM_REGS=1 makes them symbolic (for use with a fixed cbmc). */
+#if defined(H_MEM_REGS) && H_MEM_REGS
+#define H_MEM_REG ((MIR_reg_t) nd_below (6))
+#else
+#define H_MEM_REG 0
+#endif
 #ifndef H_NAMED /* named or anonymous data/bss/ref/lref/expr item: concrete, so that every %s argument is a concrete string */
 #define H_NAMED 1
 #endif
@@ -96,10 +105,10 @@ void harness (void) {
     H_INSN (MIR_OP_DOUBLE, in->ops[0].u.d = nd_double ());
     H_INSN (MIR_OP_LDOUBLE, in->ops[0].u.ld = (long double) nd_double ());
     H_INSN (MIR_OP_MEM, (in->ops[0].u.mem.type = (MIR_type_t) H_MTYPE, in->ops[0].u.mem.disp = (MIR_disp_t) nd (),
-                         in->ops[0].u.mem.base = (MIR_reg_t) nd_below (6), in->ops[0].u.mem.index = (MIR_reg_t) nd_below (6),
+                         in->ops[0].u.mem.base = H_MEM_REG, in->ops[0].u.mem.index = H_MEM_REG,
                          in->ops[0].u.mem.scale = (MIR_scale_t) nd_below (256), in->ops[0].u.mem.alias = 0, in->ops[0].u.mem.nonalias = 0));
     H_INSN (MIR_OP_MEM, (in->ops[0].u.mem.type = MIR_T_I8, in->ops[0].u.mem.disp = (MIR_disp_t) nd (),
-                         in->ops[0].u.mem.base = (MIR_reg_t) nd_below (6), in->ops[0].u.mem.index = (MIR_reg_t) nd_below (6),
+                         in->ops[0].u.mem.base = H_MEM_REG, in->ops[0].u.mem.index = H_MEM_REG,
                          in->ops[0].u.mem.scale = (MIR_scale_t) nd_below (256),
                          in->ops[0].u.mem.alias = (MIR_alias_t) nd_below (3), in->ops[0].u.mem.nonalias = (MIR_alias_t) nd_below (3)));
     H_INSN (MIR_OP_REF, in->ops[0].u.ref = &h_func_item);
